@@ -18,7 +18,7 @@ pub fn def() -> CheckDef {
 fn meta(_ctx: &Ctx) -> Meta {
     Meta {
         level: "exploration",
-        rule: "packages synthesised by the harness encoder around a real header + payload: every subset of the four digest tags (MD5 over header+payload, SHA-1 and SHA-256 over the header, SHA-256 payload digest) x each present digest correct or wrong (first/middle/last character, wrong length), payload digest algorithm in {8 supported; 1,9,10,11,12,14 known-unsupported; 0,7,99,u32::MAX unknown}, digest arrays with 0/1/2 items; the asset packages and built/signed packages as they are; and every single-bit flip of header and payload of packages carrying all four digests. verify_digests() runs in worker processes (release + verifdbg); the expected verdict (Ok / digest mismatch / error for unsupported algorithm) is recomputed per input from the bytes by the independent decoder. Wrong digest values include other lengths (shorter, longer, empty, half, doubled) and pairs of wrong symbols whose differences cancel (transposition, same bit in two symbols). distinct_nontrivial = distinct inputs with a definite expected verdict that the library parsed".into(),
+        rule: "packages synthesised by the harness encoder around a real header + payload: every subset of the four digest tags (MD5 over header+payload, SHA-1 and SHA-256 over the header, SHA-256 payload digest) x each present digest correct or wrong (first/middle/last character, wrong length), payload digest algorithm in {8 supported; 1,9,10,11,12,14 known-unsupported; 0,7,99,u32::MAX unknown}, digest arrays with 0/1/2 items; the asset packages and built/signed packages as they are; and every single-bit flip of header and payload of packages carrying all four digests. verify_digests() runs in worker processes (release + verifdbg); the expected verdict (Ok / digest mismatch / error for unsupported algorithm) is recomputed per input from the bytes by the independent decoder. Wrong digest values include other lengths (shorter, longer, empty, half, doubled) and pairs of wrong symbols whose differences cancel (transposition, same bit in two symbols). Part of the region-less signature headers list their entries in descending or rotated tag order. distinct_nontrivial = distinct inputs with a definite expected verdict that the library parsed".into(),
         assumptions: vec!["digests cover the canonical header image (reserved intro bytes zero), as rpm itself hashes".into()],
         floor_distinct: 1000,
     }
@@ -264,6 +264,16 @@ fn synthesise(rng: &mut Rng, thorough: bool) -> Vec<(String, Vec<u8>)> {
                             sitems.push((tag::SIG_MD5, Val::Bin(v)));
                         }
                         sitems.sort_by_key(|(t, _)| *t);
+                        // a third of the region-less signature headers list their entries in descending
+                        // or rotated tag order (nothing requires an index to be sorted)
+                        let unsorted = (m + s1) % 2 != 0 && sitems.len() >= 2 && (m + s1 + s2) % 3 != 0;
+                        if unsorted {
+                            if (m + s2) % 2 == 0 {
+                                sitems.reverse();
+                            } else {
+                                sitems.rotate_left(1);
+                            }
+                        }
                         let (se, ss) = if (m + s1) % 2 == 0 { layout_with_region(tag::SIG_REGION, &sitems) } else { layout(&sitems) };
                         let bytes = enc_package(&enc_lead("digests"), &enc_header(&se, &ss), &hdr, payload);
                         out.push((format!("synth:{plabel}:md5={m},sha1={s1},sha256={s2}"), bytes));
